@@ -44,7 +44,7 @@ class DictProxy(dict):
                 "DictProxy requires a parent DictField.{key,value}_field attribute"
             )
 
-        if isinstance(iterable, DictProxy) and iterable.dict_field is dict_field:
+        if isinstance(iterable, DictProxy) and self._is_compatible_proxy(iterable):
             super().__init__(iterable)
         elif iterable:
             super().__init__(
